@@ -152,3 +152,24 @@ func VerifHarness_C12_bytes3() {
 	vfNodeIO(vfIOCfg{maxAttempts: 3, chunkLen: 6, capture: true})
 }
 func VerifHarness_C12_big() { vfNodeIO(vfIOCfg{maxAttempts: 2, chunkLen: 10000, capture: false}) }
+
+// C11.retry: a later retry of a run sees every captured output with exactly the recorded
+// value (values containing '=', spaces, quotes included): real NewExecutionGraphForRetry.
+func VerifHarness_C11_retryrestore() {
+	val := vfString("value", 6)
+	m := &dag.SyncMap{}
+	m.Store("VFRESTORED", "VFRESTORED="+val)
+	s0 := dag.Step{Name: "s0", OutputVariables: m}
+	s1 := dag.Step{Name: "s1", Depends: []string{"s0"}}
+	n0 := NewNode(s0, NodeState{Status: NodeStatusSuccess})
+	n1 := NewNode(s1, NodeState{Status: NodeStatusError})
+	os.Unsetenv("VFRESTORED")
+	g, err := NewExecutionGraphForRetry(vfQuietLogger(), n0, n1)
+	vfAssert(err == nil, "C11.retry/retry-graph-is-built")
+	vfAssert(os.Getenv("VFRESTORED") == val, "C11.retry/captured-output-is-restored-unchanged-for-a-retry")
+	v, ok := g.outputVariables.Load("VFRESTORED")
+	vs, _ := v.(string)
+	vfAssert(ok && vs == "VFRESTORED="+val, "C11.retry/captured-output-stays-shared-with-the-retried-steps")
+	vfAssert(g.nodes[1].data.Step.OutputVariables == g.outputVariables, "C11.retry/retried-step-receives-the-shared-outputs")
+	vfReach("end")
+}
